@@ -131,6 +131,16 @@ def monitor(impl, cfg, cname, hist, pre, ev, post, mon, vb: VB, bnds) -> Tuple:
         waiting = 0
     # ---------------- software interrupt: a call that returns; it serves no hardware source ----------------------
     elif ev[0] == "step" and op_pre == 0xFE and pre["power"] == "running":
+        frame = stack_bytes(post, (s_pre - 5) & 0xFFFFF, 5)
+        if s_post != ((s_pre - 5) & 0xFFFFF) or frame is None:
+            vb.add(sig("ir-frame/not-5-bytes"), f"{impl} {cname}: IR moved S {s_pre:#x} -> {s_post:#x} after {hist}", wit)
+        else:
+            f_pc = frame[2] | (frame[3] << 8) | (frame[4] << 16)
+            if frame[0] != imr_pre or (frame[1] & 3) != (pre["regs"]["F"] & 3) or f_pc != ((pc_pre + 1) & 0xFFFFF):
+                vb.add(sig("ir-frame/contents"), f"{impl} {cname}: IR at {pc_pre:#x} with IMR={imr_pre:#04x} F={pre['regs']['F']:#04x} pushed "
+                       f"IMR={frame[0]:#04x} F={frame[1]:#04x} PC={f_pc:#x} after {hist}", wit)
+            if imr_post != (imr_pre & 0x7F):
+                vb.add(sig("ir-frame/master-enable-not-cleared"), f"{impl} {cname}: after IR IMR={imr_post:#04x} (was {imr_pre:#04x})", wit)
         acks = acks + (0,)
         depth += 1
     # ---------------- RETI --------------------------------------------------------------------------
@@ -192,6 +202,16 @@ def monitor(impl, cfg, cname, hist, pre, ev, post, mon, vb: VB, bnds) -> Tuple:
         if off_mode and (isr_post & ~isr_pre & 0x03) and not (isr_pre & 0x0C):
             vb.add(sig("timers-run-while-off"), f"{impl} {cname}: powered off, yet a timer status bit was set "
                    f"(ISR {isr_pre:#04x}->{isr_post:#04x}) after {hist}", wit)
+        # "a powered-off CPU additionally stops both timers": while it stays off the countdown to each target is frozen
+        if off_mode and post["power"] != "running" and not (isr_pre & 0x0C) and pre.get("timer_enabled", True):
+            en, mti_p, sti_p = cfg["timer"]
+            for tname, per, key in (("mti", mti_p, "next_mti"), ("sti", sti_p, "next_sti")):
+                if en and per > 0 and key in pre and key in post and pre[key] > pre["cycles"]:
+                    if (post[key] - post["cycles"]) != (pre[key] - pre["cycles"]):
+                        vb.add(sig("off-countdown-advances"), f"{impl} {cname}: powered off, yet the {tname} countdown went from "
+                               f"{pre[key] - pre['cycles']} to {post[key] - post['cycles']} cycles (counter {pre['cycles']}->{post['cycles']}, "
+                               f"target {pre[key]}->{post[key]}) after {hist}", wit)
+                        break
     stale &= isr_post            # a bit that went back to 0 is fresh the next time it is raised
     return (depth, min(waiting, 4), acks[-3:], stale & 0x0F)
 
